@@ -12,26 +12,7 @@ MIXED = [{"cpu": 2, "mem": "lots"}, {"cpu": "lots", "mem": 2}, {"a": "x", "b": {
 PRIORS = ['{"disk": 9}', '{"a": "kept"}', '["kept"]']
 
 
-def typed_addl_null(c, doc):
-    """does the document put null where an object with typed additionalProperties is expected (D30: the generated code panics)"""
-    dg = Docs(c.schema, None)
-
-    def walk(s, v):
-        r = dg.resolve(s)
-        ap = r.get("additionalProperties")
-        if v is None and r.get("properties") and isinstance(ap, dict) and types_of(ap):
-            return True
-        if isinstance(v, dict):
-            for k, x in v.items():
-                if k in r.get("properties", {}):
-                    if walk(r["properties"][k], x):
-                        return True
-                elif isinstance(ap, dict) and walk(ap, x):
-                    return True
-        if isinstance(v, list) and isinstance(r.get("items"), dict):
-            return any(walk(r["items"], x) for x in v)
-        return False
-    return walk(c.schema, doc)
+from vlib.valuecheck import typed_addl_null  # noqa: E402
 
 
 def has_typed_addl(s):
